@@ -223,6 +223,7 @@ theorem step_inv (s : Store) (op : Op) (h : Inv s) (hop : OpOK s op) : Inv (step
       split
       · rename_i l' hs; exact layerInv_same hl (undo_same hs)
       · exact hl
+    | checkCurrent x o ser => exact hl
     | pack P => exact layerInv_pack hl P
     | newOid draws => exact hl
     | push d => exact ⟨hl, layerInv_empty _ _⟩
@@ -267,6 +268,7 @@ theorem step_inv (s : Store) (op : Op) (h : Inv s) (hop : OpOK s op) : Inv (step
         · split
           · rename_i c' hs; exact ⟨hb, layerInv_same hc (undo_same hs)⟩
           · exact ⟨hb, hc⟩
+    | checkCurrent x o ser => exact ⟨hb, hc⟩
     | pack P =>
       simp only [step]
       split
